@@ -161,6 +161,7 @@ func totInit() {
 	if totDir != "" {
 		os.Chdir(totDir) //nolint:errcheck
 	}
+	syntax.StdScope() // the library is parsed once per process: not part of any case's budget
 }
 
 func handleTotality(raw json.RawMessage) *Obs {
@@ -251,8 +252,21 @@ func totRun(p totProg, obs *Obs) bool {
 		obs.Fails = append(obs.Fails, Fail{Sig: Signature{Op: p.op, ShapeL: p.l, ShapeR: p.r, Symptom: symptom, Msg: msg, Frame: frame},
 			Detail: fmt.Sprintf("%s\n%s", p.src, detail), Source: p.src})
 	}
+	var o out
 	select {
-	case o := <-ch:
+	case o = <-ch:
+	case <-time.After(6 * time.Second):
+		// a loaded machine can stretch a first evaluation past the budget: only an evaluation that is
+		// still running after 30 s is called a hang
+		select {
+		case o = <-ch:
+			obs.Notes = append(obs.Notes, "slow-but-finished")
+		case <-time.After(24 * time.Second):
+			fail("hang", "", "", "no value, error or rendered message within 30s")
+			return false
+		}
+	}
+	{
 		switch {
 		case o.panicked:
 			fail("panic", classifyMsg(o.msg), o.frame, "uncaught panic: "+trunc(o.msg, 300))
@@ -266,9 +280,6 @@ func totRun(p totProg, obs *Obs) bool {
 			obs.Notes = append(obs.Notes, "value")
 		}
 		return true
-	case <-time.After(6 * time.Second):
-		fail("hang", "", "", "no value, error or rendered message within 6s")
-		return false
 	}
 }
 
@@ -277,8 +288,8 @@ func init() {
 	handlerInit["totality"] = totInit
 	props["C10"] = func(rc *RunCtx) int {
 		rep := NewReport("C10", rc.Tier, rc.Seed, "exploration")
-		rep.Rule = "TLC enumerates the space of the Totality spec: every binary operator of the grammar (59 forms) on every ordered pair of 28 operand kinds, 35 unary / postfix / call / slice / access / literal-construction / binding forms on every kind, every tuple of 1..2 kinds (thorough: 1..3 over 13 kinds) to which the harness applies every callable member of the real safe library, and every string of up to 3 (thorough: 4, sampled) tokens over a 53-token alphabet of delimiters, operators, keywords and fragments, joined with and without spaces. Each program goes through syntax.EvaluateExpr as the CLI does, then the value is printed or the error rendered, under a 6 s budget. Violation: an uncaught panic (in evaluation, in printing the value or in rendering the error) or no outcome within the budget; the signature is (form, operand kinds, panic message class, first arr.ai frame)."
-		rep.Assume = []string{"6 s without an outcome on these tiny inputs counts as a hang", "library members that reach outside the process (//os, //net, //log, //deprecated) are excluded; //eval belongs to C18"}
+		rep.Rule = "TLC enumerates the space of the Totality spec: every binary operator of the grammar (59 forms) on every ordered pair of 28 operand kinds, 35 unary / postfix / call / slice / access / literal-construction / binding forms on every kind, every tuple of 1..2 kinds (thorough: 1..3 over 13 kinds) to which the harness applies every callable member of the real safe library, and every string of up to 3 (thorough: 4, sampled) tokens over a 53-token alphabet of delimiters, operators, keywords and fragments, joined with and without spaces. Each program goes through syntax.EvaluateExpr as the CLI does, then the value is printed or the error rendered, under a budget (6 s, confirmed at 30 s). Violation: an uncaught panic (in evaluation, in printing the value or in rendering the error) or no outcome within the budget; the signature is (form, operand kinds, panic message class, first arr.ai frame)."
+		rep.Assume = []string{"30 s without an outcome on these tiny inputs counts as a hang (evaluations slower than 6 s are counted)", "library members that reach outside the process (//os, //net, //log, //deprecated) are excluded; //eval belongs to C18"}
 		dir := filepath.Join(verifRoot, ".work", fmt.Sprintf("tot-%d", os.Getpid()))
 		if err := os.MkdirAll(dir, 0o755); err != nil {
 			infraFail("C10: %v", err)
